@@ -21,11 +21,26 @@ func vSmallNode(name string) Node {
 
 // vSmallTree: root "ROOT" with nc children (cs-selected), the first child optionally with one grandchild.
 func vSmallTree(name string, nc int, grand bool) Node {
+	n := 0
+	if grand {
+		n = 1
+	}
+	return vSmallTreeG(name, nc, n)
+}
+
+// vSmallTreeG: as vSmallTree with ngrand grandchildren under the first child (two of them can be equal).
+func vSmallTreeG(name string, nc, ngrand int) Node {
 	root := NewNode(TagFromString("ROOT"), "", "")
 	for i := 0; i < nc; i++ {
 		c := vSmallNode(fmt.Sprintf("%s.c%d", name, i))
-		if grand && i == 0 {
-			c.AddNode(vSmallNode(name + ".g"))
+		if i == 0 {
+			for g := 0; g < ngrand; g++ {
+				gname := name + ".g"
+				if g > 0 {
+					gname = fmt.Sprintf("%s.g%d", name, g)
+				}
+				c.AddNode(vSmallNode(gname))
+			}
 		}
 		root.AddNode(c)
 	}
@@ -188,10 +203,11 @@ func VerifC08_Diff(cs int) {
 	vCheckDiff(d, left, right)
 }
 
-// VerifC08_Equal: a tree and a reordered deep copy give an all-two-sided diff. cs: children 1..3, grand.
+// VerifC08_Equal: a tree and a reordered deep copy give an all-two-sided diff. cs%3: children 1..3,
+// cs/3%3: 0, 1 or 2 grandchildren under the first child (two equal ones included).
 func VerifC08_Equal(cs int) {
 	nc := cs%3 + 1
-	left := vSmallTree("l", nc, cs/3%2 == 1)
+	left := vSmallTreeG("l", nc, cs/3%3)
 	perm := vPerms3[VsChoose("perm", 6)]
 	right := NewNode(TagFromString("ROOT"), "", "")
 	for _, j := range perm {
